@@ -61,8 +61,12 @@ pub struct TestObs {
     /// how many results the report contains for this test case
     pub results: u32,
     pub report: Report,
-    /// Lib tier: the executor's Output for this test case, if it returned one
+    /// Lib tier: the executor's Output for this test case, if it returned one.
+    /// Cli tier: the `output` object of the JSON report (present for failed test cases only)
     pub raw: Option<RawOut>,
+    /// `raw` went through a JSON string (lossy for bytes that are not UTF-8)
+    #[serde(default)]
+    pub raw_lossy: bool,
 }
 
 #[derive(Clone, Debug, PartialEq, Eq, Serialize, Deserialize)]
